@@ -22,6 +22,10 @@ pub fn snap_equal_ignoring_counters(a: &NodeSnapshot, b: &NodeSnapshot) -> Optio
     if a.pending != b.pending {
         return Some(format!("pending handshakes changed: {:?} -> {:?}", a.pending, b.pending));
     }
+    // the count of unanswered repetitions is what lets a handshake that gets no valid answer time out
+    if a.pending_retries != b.pending_retries {
+        return Some(format!("retry counters of pending handshakes changed: {:?} -> {:?}", a.pending_retries, b.pending_retries));
+    }
     if a.table != b.table {
         return Some("claim table changed".to_string());
     }
